@@ -245,7 +245,7 @@ def run_model(suite: str, cases: typing.List[dict], timeout: float = 1800) -> ty
         return []
     payload = "".join(json.dumps(c, separators=(",", ":")) + "\n" for c in cases)
     r = subprocess.run([str(DRIVER_EXE), suite], input=payload, stdout=subprocess.PIPE, stderr=subprocess.PIPE, text=True, timeout=timeout)
-    lines = [l for l in r.stdout.splitlines() if l.strip()]
+    lines = [l for l in r.stdout.split("\n") if l.strip()]  # not splitlines(): the driver writes NEL / U+2028 / U+2029 unescaped inside JSON strings
     if r.returncode != 0 or len(lines) != len(cases):
         raise LeanFailure("driver(%s): rc=%s, %d outcomes for %d cases: %s" % (suite, r.returncode, len(lines), len(cases), r.stderr[-800:]))
     outs = [json.loads(l) for l in lines]
